@@ -92,6 +92,7 @@ type JobResult struct {
 	GlobalWrites  map[string]int
 	Truncated     bool
 	ExpectedPanic int
+	Refinements   int
 	Observed      [][]string // concrete-mode observations
 	InputKinds      []string // concrete mode: kinds of the inputs consumed
 	ConcreteOutcome string   // concrete mode: pass | check-failed L | assume-failed | panic ... |obs| ...
@@ -112,6 +113,9 @@ type pathState struct {
 	tags      []string
 	observed  []string
 	assumeFailed bool
+	lazyDefs     []*smt.Term // exact definitions of abstracted operations
+	lazyDone     int
+	fbits        map[*smt.Term]*smt.Term
 }
 
 type undoRec struct {
@@ -120,7 +124,7 @@ type undoRec struct {
 }
 type undoMap struct {
 	m   *omap
-	key value
+	ix  int
 	old value
 	had bool
 }
@@ -337,14 +341,34 @@ func (i *interpreter) floatBits(v value) value {
 	case float64:
 		return concreteOfKind(types.Uint64, smtFloatBits(f))
 	case *Sym:
-		if f.T.Op == smt.OFFromBits {
-			return i.mk(f.T.Args[0], types.Uint64)
-		}
-		bv := i.tb.Var("fbits", smt.BV(64))
-		i.sol.Assert(i.tb.Eq(i.tb.FFromBits(bv), f.T))
-		return i.mk(bv, types.Uint64)
+		return i.mk(i.floatBitsTerm(f.T), types.Uint64)
 	}
 	panic("floatBits: not a float")
+}
+
+// floatBitsTerm maps a float term to a term for its bits. Bits of inputs are
+// preserved exactly through ite; for computed floats a (memoised) fresh
+// variable constrained by to_fp is used.
+func (i *interpreter) floatBitsTerm(t *smt.Term) *smt.Term {
+	b := i.tb
+	switch t.Op {
+	case smt.OConst:
+		return b.BVConst(t.V, 64)
+	case smt.OFFromBits:
+		return t.Args[0]
+	case smt.OIte:
+		return b.Ite(t.Args[0], i.floatBitsTerm(t.Args[1]), i.floatBitsTerm(t.Args[2]))
+	}
+	if i.ps.fbits == nil {
+		i.ps.fbits = map[*smt.Term]*smt.Term{}
+	}
+	if bv, ok := i.ps.fbits[t]; ok {
+		return bv
+	}
+	bv := b.Var("fbits", smt.BV(64))
+	i.sol.Assert(b.Eq(b.FFromBits(bv), t))
+	i.ps.fbits[t] = bv
+	return bv
 }
 
 // ---------------------------------------------------------------------------
@@ -375,7 +399,7 @@ func (i *interpreter) rollback() {
 	ps := i.ps
 	for k := len(ps.undoMaps) - 1; k >= 0; k-- {
 		u := ps.undoMaps[k]
-		u.m.restore(u.key, u.old, u.had)
+		u.m.restore(u.ix, u.old, u.had)
 	}
 	for k := len(ps.undo) - 1; k >= 0; k-- {
 		*ps.undo[k].addr = ps.undo[k].old
@@ -540,6 +564,9 @@ func (i *interpreter) check(cond value, label string) {
 		return
 	}
 	r := i.sol.Check(b.Not(c))
+	if r == smt.Sat && i.refine() {
+		r = i.sol.Check(b.Not(c))
+	}
 	switch r {
 	case smt.Unsat:
 		i.res.Discharged++
@@ -553,6 +580,21 @@ func (i *interpreter) check(cond value, label string) {
 		panic(pathEnd{"after-violation"})
 	}
 	i.sol.Assert(c)
+}
+
+// refine asserts the exact definitions of abstracted operations on this path.
+// Returns true if anything new was asserted.
+func (i *interpreter) refine() bool {
+	ps := i.ps
+	if ps.lazyDone >= len(ps.lazyDefs) {
+		return false
+	}
+	for _, d := range ps.lazyDefs[ps.lazyDone:] {
+		i.sol.Assert(d)
+	}
+	ps.lazyDone = len(ps.lazyDefs)
+	i.res.Refinements++
+	return true
 }
 
 func (i *interpreter) assume(cond value) {
@@ -729,7 +771,11 @@ func (i *interpreter) onPanic(msg string) {
 	if i.violated[label] >= i.maxViolPerLabel {
 		return
 	}
-	switch i.sol.Check() {
+	r := i.sol.Check()
+	if r == smt.Sat && i.refine() {
+		r = i.sol.Check()
+	}
+	switch r {
 	case smt.Sat:
 		i.violated[label]++
 		i.modelViolation("panic", label, msg)
